@@ -563,3 +563,12 @@ def injective(ctx):
                     'the items <empty> and 00 are indistinguishable after parsing: one of them cannot re-serialize identically')
     if not hits:
         ctx.saw('no collision')
+
+
+@PROP.obligation('C06.cache-keys')
+def cache_keys(ctx):
+    """Memoisation (serialisations and ids): every container that a function both looks up and stores into is found (none exists on the reference tree; a
+    fixture self-test keeps the detector honest) and the key that is looked up must carry every parameter - and for containers shared
+    between objects every attribute of self - that the cached value depends on through data or control flow."""
+    from .common_cache import cache_keys as run
+    run(ctx, [('transactions', lambda q: True), ('blocks', lambda q: True)], 'transactions and blocks')
